@@ -184,6 +184,7 @@ def draw_case(seed):
                        "empty_at": qr.randrange(len(p) + 1) if qr.random() < 0.15 else None})
     return {"seed": seed, "model": model, "assignment": assignment, "orders": orders,
             "zero_signature": core.rng(seed, "sig").random() < 0.15,
+            "reuse_dex_objects": core.rng(seed, "reuse").random() < 0.2,
             "sched_seed": core.rng(seed, "sched").getrandbits(40), "preempt": core.rng(seed, "sched-rate").choice([0.005, 0.03, 0.1])}
 
 
@@ -275,10 +276,17 @@ def execute(case):
     raw0 = unsigned(raw0)
     if case.get("zero_signature"):
         probe("dex-files-with-zero-signature-field")
-    dx0 = Analysis()
-    dx0.add(dex.DEX(raw0))
-    dx0.create_xref()
-    S0 = summary(dx0)
+    try:
+        dx0 = Analysis()
+        dx0.add(dex.DEX(raw0))
+        dx0.create_xref()
+        S0 = summary(dx0)
+    except HarnessError:
+        raise
+    except Exception as e:
+        # the single-DEX analysis itself fails on this (malformed) model: every split must fail the same way
+        S0 = Counter({("EXC", type(e).__name__): 1})
+        probe("single-dex-analysis-raised")
     log.add("ref", "summary", [len(S0), core.digest_of(sorted(map(repr, S0.items())))])
 
     subs = dexasm.split(model, case["assignment"])
@@ -308,6 +316,16 @@ def execute(case):
     preempt = case.get("preempt", 0.03)
     threads_seen = 0
 
+    parsed_cache = {}
+
+    def parsed(pi):
+        """a DEX object for part pi: parsed afresh for every analysis, or (case flag) parsed once and used by all of them"""
+        if not case.get("reuse_dex_objects"):
+            return dex.DEX(raws[pi])
+        if pi not in parsed_cache:
+            parsed_cache[pi] = dex.DEX(raws[pi])
+        return parsed_cache[pi]
+
     def one_run(oi, o, sched_k):
         """one history: Analysis(), add in order with interleaved queries, create_xref -- under the thread simulator, so
         that threads the code under test may start are scheduled by the seed (no thread is started on the unchanged tree)"""
@@ -323,7 +341,7 @@ def execute(case):
                     dx.add(dex.DEX(empty_raw))
                     probe("empty-dex-added")
                     units += 1
-                dx.add(dex.DEX(raws[pi]))
+                dx.add(parsed(pi))
                 pos_of[pi] = step
                 units += 1
                 q = o["queries"][step] if step < len(o["queries"]) else "none"
@@ -348,6 +366,9 @@ def execute(case):
         except HarnessError:
             raise
         except Exception as e:
+            if ("EXC", type(e).__name__) in S0:
+                log.add(oi, "order-raised-like-reference", [o["order"], type(e).__name__])
+                continue
             # the single-DEX analysis of the same classes succeeded: an exception for a split / order is a difference
             import traceback
             tb = traceback.extract_tb(e.__traceback__)
@@ -494,7 +515,7 @@ def write_replay(case, sig, msg, info):
         return None
     payload = {"property": PROP, "engine": "histsim", "seed": case["seed"], "config": {},
                "model": case.get("model"), "assignment": case.get("assignment"), "orders": case.get("orders"),
-               "sched_seed": case.get("sched_seed"), "preempt": case.get("preempt"), "zero_signature": case.get("zero_signature"),
+               "sched_seed": case.get("sched_seed"), "preempt": case.get("preempt"), "zero_signature": case.get("zero_signature"), "reuse_dex_objects": case.get("reuse_dex_objects"),
                "apk": case.get("apk"),
                "ops": [["add"] + o["order"] for o in case.get("orders", [])], "decisions": [], "faults": [],
                "violation": {"class": sig.split(":")[1], "signature": sig, "message": sigs[sig]},
@@ -517,7 +538,7 @@ def replay(path):
         case = {"seed": rp["seed"], "apk": rp["apk"]} if rp.get("apk") else \
             {"seed": rp["seed"], "model": rp["model"], "assignment": rp["assignment"], "orders": rp["orders"],
              "sched_seed": rp.get("sched_seed") or rp["seed"], "preempt": rp.get("preempt") or 0.03,
-             "zero_signature": rp.get("zero_signature")}
+             "zero_signature": rp.get("zero_signature"), "reuse_dex_objects": rp.get("reuse_dex_objects")}
         out = execute(case)
         return {s for s, _ in out["problems"]}, out["digest"], [f"{s}: {m}" for s, m in out["problems"]]
     return driver.replay_common(__import__("checks.c16", fromlist=["x"]), path, rerun)
